@@ -96,6 +96,7 @@ fn single_observation(kind: u8, unit_sel: u8) {
                     assert!(counts.is_empty(), "scalar form without sampling");
                 }
                 assert!(b.metrics.is_empty() == (flag_sel == 2), "declared unless no-metric");
+                check_declaration(&b, unit_sel, flag_sel);
             }
         }
         return;
@@ -147,7 +148,12 @@ fn single_observation(kind: u8, unit_sel: u8) {
     } else {
         assert!(starts_with_at(s, pre, r#","m":{"Values":["#) && ends_with(s, "]}"), "histogram member");
     }
-    // declaration
+    check_declaration(&b, unit_sel, flag_sel);
+}
+
+/// the metric declaration ("Metrics" directive entry) is exactly the expected text for (unit, flag); does not depend on
+/// the recording stubs, so it is checked by the solver and again in the native replay
+fn check_declaration(b: &Bufs, unit_sel: u8, flag_sel: u8) {
     let mp = METRICS_PREFIX.len();
     let ms = b.metrics.as_str();
     if flag_sel == 2 {
